@@ -6,7 +6,8 @@ for the commands it owns and `none` otherwise.
 
 * `mmodel vm|tree <op>` — the model's outcome for `(call recv x<member> arg…)`, `(field recv x<member>)`,
   `(index recv idx)` (value syntax of `hv membercall`):
-  `OK ret=<v> recv=<v>` | `INT class=fatal|throw kind=<K|-> msg=<hex>` | `PANIC <hex>` | `UNMODELLED`
+  `OK ret=<v> recv=<v>` | `INT class=fatal|throw kind=<K|-> msg=<hex>` | `PANIC <hex>` | `UNMODELLED`;
+  `(seq recv (x<member> arg…)…)` applies the calls in turn and appends ` step=<n>`
 * `mconf call|field|index x<rep> x<member> <ret> <recv>` — does the dumped result conform to the type the
   regenerated analyzer table advertises, and the receiver to the representative's type?
   `CONF ret=<b> recv=<b>` | `NOROW`
@@ -92,10 +93,36 @@ def runOp (vm : Bool) (op : Sexp) : Option Res :=
     pure (indexValue r i)
   | _ => none
 
+/-- `(seq recv (x<member> arg…)…)`: the calls one after the other on the same receiver; the first
+non-OK step or the last step, with its number. -/
+def runSeq (vm : Bool) (recv : MVal) (steps : List Sexp) : Option (Res × Nat) := do
+  let mut cur := recv
+  let mut last : Res := .ok .null recv
+  let mut n := 0
+  for st in steps do
+    match st with
+    | .list (name :: args) =>
+      let nm ← name.asStr?
+      let a ← args.mapM decodeVal
+      let r := callMember vm cur nm a
+      match r with
+      | .ok _ recv' => cur := recv'; last := r
+      | .fatal k m => return (.fatal k m, n)
+      | .throw m => return (.throw m, n)
+      | .panic w => return (.panic w, n)
+      | .unmodelled => return (.unmodelled, n)
+    | _ => none
+    n := n + 1
+  return (last, n - 1)
+
 def cmdModel (payload : String) : String :=
   match payload.splitOn " " with
   | be :: rest =>
     match Sexp.parse (" ".intercalate rest) with
+    | some (.list (.atom "seq" :: recv :: steps)) =>
+      match decodeVal recv >>= fun r => runSeq (be == "vm") r steps with
+      | some (r, n) => s!"{encodeRes r} step={n}"
+      | none => "BAD-INPUT"
     | some op =>
       match runOp (be == "vm") op with
       | some r => encodeRes r
